@@ -51,6 +51,9 @@ const (
 	// input-class suffix: the key belongs to a never-expiring duty and a share holding an accepted
 	// partial of it has stored more distinct never-expiring duties than the per-share cap.
 	suffixBeyondCap = "/exempt-duty-share-beyond-cap"
+	// input-class suffix: the key belongs to a DutySignature duty (plain signatures, no message
+	// root: every partial of a distinct share matches).
+	suffixSignatureDuty = "/signature-duty"
 )
 
 // exemptCap mirrors parsigdb's maxExemptEntriesPerShare: a share's partial for a never-expiring
@@ -117,6 +120,7 @@ func TestCheck(t *testing.T) {
 	r := kit.Start(t, "C07")
 	defer r.Finish()
 	r.Rule("case = PRNG scenario against the real parsigdb.MemDB (+Trim): n in 3..7, t=ceil(2n/3), 1-4 validators, 1-3 duties (expiring, exempt, sync-subcommittee keyed), " +
+		"every core.DutyType (incl. root-less DutySignature with core.Signature values, info_sync, deprecated builder_proposer) with probe values and, where one exists, the real core.SignedData kind; t=n in 15% of the cases; " +
 		"per key a list of partials (majority/minority roots, equivocating rivals, duplicates) packed into single/multi-validator StoreInternal/StoreExternal batches; kinds: perm (all orders of <=6 batches, fresh DB each), " +
 		"seq, conc (2-8 goroutines per phase), race (goroutines racing for the t-th insert), batchreject (equivocation before/inside/after the batch completing another validator), with duty expiry between/during phases; " +
 		"exemptcap (11-30 never-expiring exit/registration duties for the same validator, shares pass the per-share cap of 10 at different times, late/replayed partials, interleaved with expiring duties; " +
@@ -126,7 +130,8 @@ func TestCheck(t *testing.T) {
 	r.Assume("harness Deadliner is consistent: once a duty is expired every later Add answers DeadlineExpired; a duty is only expired while no store for it is in flight")
 	r.Assume("outside the exemptcap kind at most 3 distinct exempt duties per case, so the per-share exempt cap never evicts")
 	r.Assume("exemptcap kind: the store may evict a share's partial of a never-expiring duty only after that share stored 10 further distinct never-expiring duties for the same validator and type (constant maxExemptEntriesPerShare=10); keys that may have lost a partial that way are no longer judged for exactly-once/no-loss (sticky), only for the content of their triggers")
-	r.Assume("DutySignature (no message roots, deprecated) is not generated")
+	r.Assume("DutySignature duties carry plain signatures without a message root: every accepted partial of a distinct share matches (the harness gives them one common pseudo root); the statement's 'same signing root' is vacuous for them")
+	r.Assume("thresholds generated: ceil(2n/3) (< n) in 85% and n-of-n in 15% of the cases; thresholds <= n/2 are outside charon's configuration space")
 	r.Assume("threshold/internal subscribers return nil; values' Clone/MessageRoot/MarshalJSON never fail")
 	r.RacePkgs(false, "core/parsigdb")
 	// minima are ~1/10 of what a quick run observes (counts scale with the case count)
@@ -145,6 +150,14 @@ func TestCheck(t *testing.T) {
 	min("keys_reached_threshold", 3000)
 	min("keys_below_threshold_at_end", 1500)
 	min("exemptcap_cases", 100)
+	for _, typ := range core.AllDutyTypes() {
+		min("triggers/"+typ.String(), 150)
+	}
+	min("triggers_threshold_eq_n", 1500)
+	min("triggers_threshold_lt_n", 5000)
+	min("keys_with_more_than_threshold_matching_accepted", 2000)
+	min("signature_duty_keys_with_more_than_threshold_shares_accepted", 100)
+	min("signature_duty_keys_complete_n_of_n", 30)
 	min("exempt_fresh_stores_by_share_beyond_cap", 2000)
 	min("exempt_triggers_on_judged_key_with_share_beyond_cap", 300)
 	min("exempt_keys_no_longer_judged", 100)
@@ -231,7 +244,7 @@ type gen struct {
 
 var expiringProbeTypes = []core.DutyType{
 	core.DutyProposer, core.DutyAttester, core.DutyRandao, core.DutyPrepareAggregator, core.DutyAggregator,
-	core.DutySyncMessage, core.DutyBuilderProposer,
+	core.DutySyncMessage, core.DutyBuilderProposer, core.DutyInfoSync,
 }
 
 func newGen(c *kit.Case, kind string) *gen {
@@ -242,6 +255,9 @@ func newGen(c *kit.Case, kind string) *gen {
 		sc.n = 3 + rng.Intn(2)
 	}
 	sc.t = cluster.Threshold(sc.n)
+	if rng.Intn(100) < 15 {
+		sc.t = sc.n // n-of-n, as the DKG signature exchanger configures the store
+	}
 	sc.nThr = 1 + rng.Intn(2)
 	sc.nInt = 1 + rng.Intn(2)
 	if kind == "race" || (kind != "perm" && rng.Intn(4) != 0) {
@@ -263,6 +279,10 @@ func (g *gen) pickDuty(used map[core.Duty]bool, allowExempt bool) (core.Duty, bo
 			real = rng.Intn(2) == 0
 		case k < 20 && allowExempt:
 			typ = core.DutyBuilderRegistration
+			real = rng.Intn(2) == 0
+		case k >= 92:
+			typ = core.DutySignature // plain signatures without message root
+			real = rng.Intn(4) != 0
 		case k < 32:
 			typ = core.DutySyncContribution
 			real = true
@@ -302,7 +322,7 @@ func (g *gen) newVal(key, share, variant int) *val {
 	if err != nil {
 		panic(err)
 	}
-	root, err := rootOf(sd)
+	root, err := rootFor(k.Duty.Type, sd)
 	if err != nil {
 		panic(err)
 	}
@@ -827,7 +847,7 @@ func (g *gen) genExemptCap() []*phaseT {
 	typ := core.DutyExit
 	real := rng.Intn(3) == 0
 	if rng.Intn(3) == 0 {
-		typ, real = core.DutyBuilderRegistration, false
+		typ, real = core.DutyBuilderRegistration, rng.Intn(2) == 0
 	}
 	nVals := 1 + rng.Intn(2)
 	nDuties := exemptCap + 1 + rng.Intn(20) // 11..30
@@ -1461,7 +1481,7 @@ func (w *world) threshSub(sub int) func(context.Context, core.Duty, map[core.Pub
 				if err != nil {
 					it.err = err
 				}
-				root, err := rootOf(p.SignedData)
+				root, err := rootFor(duty.Type, p.SignedData)
 				if err != nil {
 					it.err = err
 				}
@@ -1525,6 +1545,14 @@ func (w *world) threshSub(sub int) func(context.Context, core.Duty, map[core.Pub
 				}
 			}
 			w.trigCount[[2]int{k, sub}]++
+			if sub == 0 {
+				w.st["triggers/"+duty.Type.String()]++
+				if w.sc.t == w.sc.n {
+					w.st["triggers_threshold_eq_n"]++
+				} else {
+					w.st["triggers_threshold_lt_n"]++
+				}
+			}
 			capClass := w.beyondCapDuring(k, call)
 			if capClass && !w.tainted[k] && sub == 0 {
 				w.st["exempt_triggers_on_judged_key_with_share_beyond_cap"]++
@@ -1539,6 +1567,9 @@ func (w *world) threshSub(sub int) func(context.Context, core.Duty, map[core.Pub
 				}
 				if capClass {
 					sig += suffixBeyondCap
+				}
+				if duty.Type == core.DutySignature {
+					sig += suffixSignatureDuty
 				}
 				w.fail(sig, fmt.Sprintf("threshold subscriber %d triggered %d times for key k%d (%v)", sub, c, k, w.sc.keys[k]))
 			} else if c > 1 {
@@ -1650,7 +1681,9 @@ func (w *world) checkQuiescent() {
 			switch {
 			case reached && cnt == 0 && !w.lostDone[id]:
 				w.lostDone[id] = true
-				if w.beyondCap(k) {
+				if key.Duty.Type == core.DutySignature {
+					w.fail(sigLost+suffixSignatureDuty, fmt.Sprintf("key k%d (%v) has %d accepted partial signatures of distinct shares (threshold %d) but subscriber %d was never triggered", k, key, maxCount(counts), w.sc.t, sub))
+				} else if w.beyondCap(k) {
 					w.fail(sigLost+suffixBeyondCap, fmt.Sprintf("key k%d (%v) has %d accepted partials with one root (threshold %d), each among the newest %d never-expiring duties of its share, but subscriber %d was never triggered", k, key, maxCount(counts), w.sc.t, exemptCap, sub))
 				} else if w.batchErr[k] {
 					w.fail(sigLostAfterBatchErr, fmt.Sprintf("key k%d (%v) has %d accepted partials with one root (threshold %d) but subscriber %d was never triggered; "+
@@ -1692,6 +1725,23 @@ func (w *world) finalStats() {
 	w.mu.Lock()
 	defer w.mu.Unlock()
 	for k, key := range w.sc.keys {
+		if !w.expired[key.Duty] && !w.tainted[k] {
+			counts := map[[32]byte]int{}
+			for sh := 1; sh <= w.sc.n; sh++ {
+				if acc := w.accepted[slotT{k, sh}]; acc != nil {
+					counts[acc.root]++
+				}
+			}
+			if maxCount(counts) > w.sc.t {
+				w.st["keys_with_more_than_threshold_matching_accepted"]++
+				if key.Duty.Type == core.DutySignature {
+					w.st["signature_duty_keys_with_more_than_threshold_shares_accepted"]++
+				}
+			}
+			if key.Duty.Type == core.DutySignature && maxCount(counts) >= w.sc.t && w.sc.t == w.sc.n {
+				w.st["signature_duty_keys_complete_n_of_n"]++
+			}
+		}
 		if w.trigCount[[2]int{k, 0}] > 0 {
 			w.st["keys_reached_threshold"]++
 		} else if !w.expired[key.Duty] {
